@@ -1310,6 +1310,45 @@ func c18e(c *Ctx) {
 		return a != nil && b != nil && a != b && instrDominates(a, b)
 	}
 	n := 0
+	var ordered func(fn *ssa.Function, at, bt string, depth int) (bool, string)
+	// both ends handed in: the order is the callers' to establish, judged at each of their calls
+	bothParams := func(fn *ssa.Function, at, bt string, depth int) (bool, string) {
+		var ia, ib int
+		fmt.Sscanf(at, "$%d", &ia)
+		fmt.Sscanf(bt, "$%d", &ib)
+		sites := c.W.callsTo(fn)
+		if len(sites) == 0 || depth > 2 {
+			return false, ""
+		}
+		for _, site := range sites {
+			g := site.Parent()
+			if isTestFunc(c.W, g) {
+				continue
+			}
+			args := site.Common().Args
+			if ia >= len(args) || ib >= len(args) {
+				return false, ""
+			}
+			if ok, _ := ordered(g, c.term(g, args[ia]), c.term(g, args[ib]), depth+1); !ok {
+				return false, ""
+			}
+		}
+		return true, "both ends handed in by callers that pass an earlier token first"
+	}
+	ordered = func(fn *ssa.Function, at, bt string, depth int) (bool, string) {
+		a, b := parseTokRef(at), parseTokRef(bt)
+		switch {
+		case a.kind == "param" && b.kind == "param" && at != bt:
+			return bothParams(fn, at, bt, depth)
+		case a.kind == "param":
+			return true, "start token was handed in by the caller (an earlier token)"
+		case a.kind == "win" && b.kind == "win" && a.tag == b.tag:
+			return a.idx <= b.idx, "same window, start index <= end index"
+		case a.kind == "win" && b.kind == "win" && a.tag == "":
+			return true, "start captured at function entry, end read later"
+		}
+		return false, ""
+	}
 	for _, call := range c.W.callsTo(nr) {
 		fn := call.Parent()
 		if isTestFunc(c.W, fn) {
@@ -1323,6 +1362,8 @@ func c18e(c *Ctx) {
 		ok := false
 		how := ""
 		switch {
+		case a.kind == "param" && b.kind == "param" && at != bt:
+			ok, how = bothParams(fn, at, bt, 0)
 		case a.kind == "param":
 			ok, how = true, "start token was handed in by the caller (an earlier token)"
 		case a.kind == "win" && b.kind == "win" && a.tag == b.tag:
